@@ -156,7 +156,8 @@ def k_hatvee(run, case):
               "hat(v) is not skew symmetric", v=v)
     run.check(np.array_equal(L.vee(H), v), "vee(hat(v))==v", case, "vee(hat(v)) != v", v=v)
     c = np.array([v[1] * w[2] - v[2] * w[1], v[2] * w[0] - v[0] * w[2], v[0] * w[1] - v[1] * w[0]])
-    run.check(np.allclose(H @ w, c, rtol=1e-12, atol=0), "hat(v)w==v x w", case,
+    # (a component of the cross product may cancel: rounding is relative to |v| |w|, not to the component)
+    run.check(np.allclose(H @ w, c, rtol=1e-12, atol=1e-15 * float(np.linalg.norm(v)) * float(np.linalg.norm(w))), "hat(v)w==v x w", case,
               "hat(v) w differs from the cross product", v=v, w=w)
     M = rm.hat(rng.normal(size=3) * 10.0**rng.uniform(-6, 6) * (10.0**rng.uniform(-25, 0, size=3) if mixed else 1.0))
     run.check(np.array_equal(L.hat(L.vee(M)), M), "hat(vee(M))==M", case, "hat(vee(M)) != M", M=M)
